@@ -1,10 +1,203 @@
-/- C02 placeholder: replaced by the full statement file (see git history). -/
-import GoSnaps.Diff
-import GoSnaps.Escape
+/-
+C02 — storage (escaping), read-back (unescaping) and the diff never conflate two distinct
+values — except for the one documented collision of the two token lines "---" / TOK
+(known limitation D10), whose exact extent is characterised here; and, in colour mode, except
+for the silent pass that diffmatchpatch's verdict can cause (known defect D3).
+
+Byte legend: 45 = "-", 47 = "/", 10 = "\n"; "---" = [45,45,45]; TOK = [47,45,47,45,47,45,47] is the
+7-byte escape token `Generated.escapeTo` (slash dash slash dash slash dash slash; it cannot be
+written literally inside a Lean comment).
+-/
+import GoSnaps.Lemmas.Diff
+import GoSnaps.Props.C13
 namespace GoSnaps.C02
 
-/-- identical inputs give an empty report (the trivial direction; the converse is in progress) -/
-theorem prettyDiff_refl (e name : Text) (line : Nat) : prettyDiff e e name line = [] := by
-  simp [prettyDiff]
+open GoSnaps GoSnaps.Difflib
+
+/-- no line of `v` is the escape token TOK -/
+def NoTokLine (v : Text) : Prop := Generated.escapeTo ∉ lines v
+
+instance (v : Text) : Decidable (NoTokLine v) := by unfold NoTokLine; infer_instance
+
+/-- canonical form: the line TOK is replaced by "---" (so both token lines become one
+symbol), everything else is kept -/
+def canon (v : Text) : Text := mapLines Generated.escapeTo Generated.endSeq v
+
+/-! side conditions on the generated constants (current values) -/
+theorem escapeFrom_eq : Generated.escapeFrom = Generated.endSeq := by decide
+theorem unescapeFrom_eq : Generated.unescapeFrom = Generated.escapeTo := by decide
+theorem unescapeTo_eq : Generated.unescapeTo = Generated.endSeq := by decide
+theorem tok_ne_end : Generated.escapeTo ≠ Generated.endSeq := by decide
+theorem tok_noNL : NoNL Generated.escapeTo := by decide
+theorem end_noNL : NoNL Generated.endSeq := by decide
+
+/-! ## 1. what `unescape ∘ escape` does -/
+
+/-- `unescape (escape v)` is `v` with every line TOK replaced by "---" -/
+theorem unescape_escape_fix (v : Text) :
+    unescape (escape v) = mapLines Generated.escapeTo Generated.endSeq v := by
+  unfold unescape escape
+  rw [escapeFrom_eq, unescapeFrom_eq, unescapeTo_eq, mapLines_mapLines _ _ _ _ tok_noNL]
+  apply mapLines_congr
+  intro l _
+  unfold lineMap
+  by_cases h1 : l = Generated.endSeq
+  · subst h1; simp [Ne.symm tok_ne_end]
+  · by_cases h2 : l = Generated.escapeTo <;> simp [h1, h2]
+
+/-- a value without a TOK line is read back exactly -/
+theorem unescape_escape_id (v : Text) (h : NoTokLine v) : unescape (escape v) = v := by
+  rw [unescape_escape_fix]
+  exact mapLines_id_of_not_mem _ _ v h
+
+/-- "a\n---\nb" survives the round trip; "a\nTOK\nb" comes back as "a\n---\nb" -/
+example : unescape (escape [97, 10, 45, 45, 45, 10, 98]) = [97, 10, 45, 45, 45, 10, 98] ∧
+    unescape (escape [97, 10, 47, 45, 47, 45, 47, 45, 47, 10, 98]) = [97, 10, 45, 45, 45, 10, 98] := by
+  decide
+
+example : unescape (escape [97, 10, 45, 45, 45, 10, 98]) = [97, 10, 45, 45, 45, 10, 98] :=
+  unescape_escape_id _ (by decide)
+
+/-! ## 2. exactly which values are conflated by the round trip -/
+
+theorem conflate_iff (a b : Text) :
+    unescape (escape a) = unescape (escape b) ↔ canon a = canon b := by
+  rw [unescape_escape_fix, unescape_escape_fix]; rfl
+
+/-- line-level reading of `canon a = canon b`: same number of lines, and corresponding lines
+are equal after identifying TOK with "---" -/
+theorem canon_eq_iff (a b : Text) :
+    canon a = canon b ↔
+      (lines a).map (lineMap Generated.escapeTo Generated.endSeq) =
+      (lines b).map (lineMap Generated.escapeTo Generated.endSeq) :=
+  mapLines_eq_iff _ _ end_noNL a b
+
+/-- D10: the round trip is not injective — "---" and TOK are distinct but are read back
+as the same text -/
+example : ([45, 45, 45] : Text) ≠ [47, 45, 47, 45, 47, 45, 47] ∧
+    unescape (escape [45, 45, 45]) = unescape (escape [47, 45, 47, 45, 47, 45, 47]) ∧
+    canon [45, 45, 45] = canon [47, 45, 47, 45, 47, 45, 47] := by decide
+
+/-! ## 3. injectivity of `escape` -/
+
+theorem escape_injective_on (a b : Text) (ha : NoTokLine a) (hb : NoTokLine b)
+    (h : escape a = escape b) : a = b := by
+  rw [← unescape_escape_id a ha, ← unescape_escape_id b hb, h]
+
+/-- `escape` does not see the difference between `v` and `canon v` -/
+theorem escape_canon (v : Text) : escape (canon v) = escape v := by
+  unfold canon
+  show mapLines _ _ _ = mapLines _ _ _
+  rw [escapeFrom_eq, mapLines_mapLines _ _ _ _ end_noNL]
+  apply mapLines_congr
+  intro l _
+  unfold lineMap
+  by_cases h2 : l = Generated.escapeTo
+  · subst h2; simp
+  · by_cases h1 : l = Generated.endSeq <;> simp [h1, h2]
+
+/-- **the exact kernel of `escape`**: two texts have the same stored form iff they agree up
+to exchanging "---" and TOK lines.  So `escape` is NOT injective on all texts … -/
+theorem escape_injective_general (a b : Text) : escape a = escape b ↔ canon a = canon b := by
+  constructor
+  · intro h
+    rw [← conflate_iff, h]
+  · intro h
+    rw [← escape_canon a, ← escape_canon b, h]
+
+/-- … witness: "---" and TOK are both stored as TOK -/
+theorem escape_not_injective : ∃ a b : Text, a ≠ b ∧ escape a = escape b :=
+  ⟨[45, 45, 45], [47, 45, 47, 45, 47, 45, 47], by decide⟩
+
+example : escape [45, 45, 45] = [47, 45, 47, 45, 47, 45, 47] ∧
+    escape [47, 45, 47, 45, 47, 45, 47] = [47, 45, 47, 45, 47, 45, 47] := by decide
+
+/-- on token-free texts `canon` is the identity, so there the kernel is equality -/
+theorem canon_id (v : Text) (h : NoTokLine v) : canon v = v :=
+  mapLines_id_of_not_mem _ _ v h
+
+/-! ## 4. a changed value is reported -/
+
+/-- text snapshots (stored escaped, compared after unescaping): a different value gives a
+non-empty report, provided neither value has a TOK line -/
+theorem mismatch_reported_text (v₀ v name : Text) (line : Nat)
+    (h₀ : NoTokLine v₀) (h : NoTokLine v) (hne : v ≠ v₀) :
+    prettyDiff (unescape (escape v₀)) (unescape (escape v)) name line ≠ [] := by
+  rw [unescape_escape_id v₀ h₀, unescape_escape_id v h]
+  intro he
+  exact hne ((C13.report_empty_iff _ _ _ _).mp he).symm
+
+/-- without the side condition: the report is empty exactly when the two values agree up to
+the token collision -/
+theorem mismatch_reported_text_iff (v₀ v name : Text) (line : Nat) :
+    prettyDiff (unescape (escape v₀)) (unescape (escape v)) name line = [] ↔ canon v₀ = canon v := by
+  rw [C13.report_empty_iff, conflate_iff]
+
+/-- raw comparison (JSON / standalone snapshots, no escaping): every change is reported -/
+theorem mismatch_reported_raw (v₀ v name : Text) (line : Nat) (hne : v ≠ v₀) :
+    prettyDiff v₀ v name line ≠ [] :=
+  fun he => hne ((C13.report_empty_iff _ _ _ _).mp he).symm
+
+example : prettyDiff (unescape (escape [97, 10, 45, 45, 45])) (unescape (escape [97, 10, 45, 45]))
+    [110] 3 ≠ [] :=
+  mismatch_reported_text _ _ _ _ (by decide) (by decide) (by decide)
+
+/-- D10 seen end to end: expected "---", received TOK: the report is empty -/
+example : prettyDiff (unescape (escape [45, 45, 45])) (unescape (escape [47, 45, 47, 45, 47, 45, 47]))
+    [110] 3 = [] := by decide
+
+/-! ## 5. colour mode -/
+
+/-- exact description of the verdict, any colour setting, any diffmatchpatch behaviour -/
+theorem prettyDiffNonEmpty_eq (colour : Bool) (dmp : Text → Text → Bool) (e r : Text) :
+    prettyDiffNonEmpty colour dmp e r = true ↔
+      e ≠ r ∧ (shouldPrintHighlights colour e r = true → dmp e r = false) := by
+  unfold prettyDiffNonEmpty
+  by_cases h : e = r
+  · simp [h]
+  · by_cases hs : shouldPrintHighlights colour e r = true
+    · simp [h, hs]
+    · simp [h, hs, getUnifiedDiff_text_ne_nil h]
+
+/-- NO_COLOR: a report is printed iff the texts differ, whatever diffmatchpatch would say -/
+theorem prettyDiffNonEmpty_iff (dmp : Text → Text → Bool) (e r : Text) :
+    prettyDiffNonEmpty false dmp e r = true ↔ e ≠ r := by
+  rw [prettyDiffNonEmpty_eq]
+  simp [shouldPrintHighlights]
+
+/-- colours on: a report is printed iff the texts differ, PROVIDED diffmatchpatch never
+returns a single Equal chunk for two different texts -/
+theorem prettyDiffNonEmpty_colour_iff (dmp : Text → Text → Bool)
+    (hdmp : ∀ x y, x ≠ y → dmp x y = false) (e r : Text) :
+    prettyDiffNonEmpty true dmp e r = true ↔ e ≠ r := by
+  rw [prettyDiffNonEmpty_eq]
+  exact ⟨fun h => h.1, fun h => ⟨h, fun _ => hdmp e r h⟩⟩
+
+/-- D3 (silent pass): if diffmatchpatch does report a single Equal chunk for some non-empty
+single-line pair `x ≠ y`, go-snaps prints nothing although the texts differ -/
+theorem silent_pass_of_dmp (dmp : Text → Text → Bool) (x y : Text)
+    (hx : x ≠ []) (hy : y ≠ []) (sx : isSingleline x = true) (sy : isSingleline y = true)
+    (hd : dmp x y = true) : prettyDiffNonEmpty true dmp x y = false := by
+  unfold prettyDiffNonEmpty
+  split
+  · rfl
+  · simp [shouldPrintHighlights, hx, hy, sx, sy, hd]
+
+/-- the hypothesis on `dmp` in `prettyDiffNonEmpty_colour_iff` is also necessary on
+non-empty single-line pairs -/
+theorem colour_iff_needs_dmp (dmp : Text → Text → Bool)
+    (h : ∀ e r, prettyDiffNonEmpty true dmp e r = true ↔ e ≠ r) (x y : Text) (hne : x ≠ y)
+    (hx : x ≠ []) (hy : y ≠ []) (sx : isSingleline x = true) (sy : isSingleline y = true) :
+    dmp x y = false := by
+  cases hd : dmp x y with
+  | false => rfl
+  | true =>
+    have := silent_pass_of_dmp dmp x y hx hy sx sy hd
+    rw [(h x y).mpr hne] at this
+    exact absurd this (by decide)
+
+example : prettyDiffNonEmpty true (fun _ _ => true) [97] [98] = false ∧
+    prettyDiffNonEmpty false (fun _ _ => true) [97] [98] = true ∧
+    prettyDiffNonEmpty true (fun _ _ => true) [97, 10, 120] [98] = true := by decide +kernel
 
 end GoSnaps.C02
